@@ -732,6 +732,12 @@ func runCutScript(run *vk.Run, w *world, dir int, k int64, transport string) (to
 }
 
 func main() {
+	if os.Getenv("C06_ONLY") == "recovery" {
+		run := vk.Start("C06", "fault_enumeration")
+		recoveryAdmission(run)
+		run.Finish()
+		return
+	}
 	run := vk.Start("C06", "fault_enumeration")
 	run.Rule("trials = termination cause {client namespace disconnect, client transport close, server Disconnect(false/true), DisconnectSockets, Server.Close, TCP cut, black-hole (ping timeout), protocol garbage, request with the wrong transport} " +
 		"x phase {before CONNECT, inside a parked namespace middleware, connected idle, mid-burst c->s, mid-burst s->c, during the polling->websocket upgrade, two namespaces, Join/Leave storm on the socket from 4 goroutines, second namespace's CONNECT parked in a middleware and released while the first socket runs its (slow) disconnecting handler, inside the admission of the socket (its first join held at a wrapped adapter)} x transport; " +
@@ -834,6 +840,7 @@ func main() {
 		for rep := 0; rep < run.Pick(2, 12); rep++ {
 			runClientCloseDuringDial(run, rep%2 == 1)
 		}
+		recoveryAdmission(run)
 		for rep := 0; rep < run.Pick(10, 100); rep++ {
 			runHandshakeRace(run, rep)
 			if run.Violations() > 5 {
